@@ -20,7 +20,11 @@ void replay_assume(int c, const char* what);
 #define nondet_u8() ((uint8_t)replay_next("nondet_u8"))
 #define ASSUME(c) replay_assume(!!(c), #c)
 #define ASSERT(c, msg) replay_assert(!!(c), msg)
-#define HAVOC_HEAP() replay_load_heap()
+#ifdef VERIF_GEN_NATIVE
+#define HAVOC_HEAP() do { replay_load_heap(); ir_global_ctors(); } while (0)
+#else
+#define HAVOC_HEAP() replay_load_heap()      /* the real program runs its static initialisers before main */
+#endif
 void replay_load_heap(void);
 #else
 uint64_t nondet_u64(void);
@@ -29,7 +33,7 @@ uint16_t nondet_u16(void);
 uint8_t nondet_u8(void);
 #define ASSUME(c) __CPROVER_assume(c)
 #define ASSERT(c, msg) __CPROVER_assert((c), msg)
-#define HAVOC_HEAP() __CPROVER_havoc_object(HEAP)
+#define HAVOC_HEAP() do { __CPROVER_havoc_object(HEAP); ir_global_ctors(); } while (0)
 #endif
 
 #ifdef VERIF_NATIVE
